@@ -31,8 +31,20 @@ void verif_abort(char *msg) { __CPROVER_assume(0); }
 int sprintf(char *s, const char *f, ...) { return 0; }
 int printf(const char *f, ...) { return 0; }
 int xerbla_(char *s, int *i) { __CPROVER_assert(0, "xerbla_ not reached for legal arguments"); return 0; }
-@T@ *@T@Malloc(int_t n) { @T@ *p = malloc((size_t)(CAP*2) * sizeof(@T@)); __CPROVER_assume(p != NULL); g_n_malloc++; g_soln = p; return p; }
-@T@ *@T@Calloc(int_t n) { @T@ *p = calloc((size_t)(CAP*2), sizeof(@T@)); __CPROVER_assume(p != NULL); g_n_malloc++; g_work = p; g_work_len = n; return p; }
+/* allocators: the request is served by an object of EXACTLY the requested size (so cbmc's bounds checks on work[]/soln[] are exact);
+ * the size is split into its possible constant values (<= 2*CAP) because cbmc runs out of memory on heap objects of symbolic size. */
+#define AL(k) if (n == (k)) p = ALLOC(k); else
+#define ALLOC_EXACT { AL(0) AL(1) AL(2) AL(3) AL(4) AL(5) AL(6) AL(7) AL(8) AL(9) AL(10) AL(11) AL(12) AL(13) AL(14) AL(15) AL(16) __CPROVER_assert(0, "allocation request within 0..2*CAP entries"); }
+@T@ *@T@Malloc(int_t n) { @T@ *p = NULL;
+#define ALLOC(k) malloc((k) * sizeof(@T@))
+  ALLOC_EXACT
+#undef ALLOC
+  __CPROVER_assume(p != NULL); g_n_malloc++; g_soln = p; return p; }
+@T@ *@T@Calloc(int_t n) { @T@ *p = NULL;
+#define ALLOC(k) calloc((k), sizeof(@T@))
+  ALLOC_EXACT
+#undef ALLOC
+  __CPROVER_assume(p != NULL); g_n_malloc++; g_work = p; g_work_len = n; return p; }
 void superlu_free(void *p) { __CPROVER_assert(p == (void *)g_work || p == (void *)g_soln, "only the routine's own work arrays are freed"); g_n_free++; free(p); }
 
 int @p@trsm_(char *side, char *uplo, char *transa, char *diag, int *m, int *n, @T@ *alpha, @T@ *a, int *lda, @T@ *b, int *ldb) {
